@@ -7,3 +7,22 @@ contract(M, 'dfa_accepts_word', {'D': 'DFA', 'word': 'Word'}, returns='Bool',
          ensures=['result == (dhat(D, D.q0, word) in D.F)'],
          loops={1: {'invariant': ['q == dhat(D, D.q0, prefix)', 'q in D.Q']}},
          theories=['word', 'dfa'], props=['C01', 'C19'])
+
+_SUCC_W = '(w1 != nil() and last(w1) in D.Sigma and any((p0, init(w1)) in doneW and q1 == D.delta[(p0, last(w1))] for p0 in atoms()))'
+_SUCC_S = '(w1 != nil() and init(w1) == word and last(w1) in doneS and q1 == D.delta[(q, last(w1))])'
+_ACC_I = '(over(D.Sigma, w) and wlen(w) <= i and dfa_accepts(D, w))'
+_NEW_W = '(w != nil() and last(w) in D.Sigma and any((p0, init(w)) in doneW and D.delta[(p0, last(w))] in D.F for p0 in atoms()))'
+_NEW_S = '(w != nil() and init(w) == word and last(w) in doneS and D.delta[(q, last(w))] in D.F)'
+_I1 = 'all(((p, w) in W) == (over(D.Sigma, w) and wlen(w) == i and p == dhat(D, D.q0, w)) for p in atoms() for w in allwords())'
+contract(M, 'dfa_words_up_to_n', {'D': 'DFA', 'n': 'Int'}, returns='Set[Word]',
+         requires=['dfa_wf(D)', 'n >= 0'],
+         ensures=['all((w in result) == (over(D.Sigma, w) and wlen(w) <= n and dfa_accepts(D, w)) for w in allwords())'],
+         types={'words': 'Set[Word]', 'W': 'Set[(State,Word)]', 'W1': 'Set[(State,Word)]'},
+         loops={1: {'ghost': 'i', 'invariant': [_I1, 'all((w in words) == %s for w in allwords())' % _ACC_I, '0 <= i']},
+                2: {'ghost': 'doneW', 'invariant': [_I1, '0 <= i',
+                                                   'all(((q1, w1) in W1) == %s for q1 in atoms() for w1 in allwords())' % _SUCC_W,
+                                                   'all((w in words) == (%s or %s) for w in allwords())' % (_ACC_I, _NEW_W)]},
+                3: {'ghost': 'doneS', 'invariant': [_I1, '0 <= i', '(q, word) in W', 'doneW <= W',
+                                                   'all(((q1, w1) in W1) == (%s or %s) for q1 in atoms() for w1 in allwords())' % (_SUCC_W, _SUCC_S),
+                                                   'all((w in words) == (%s or %s or %s) for w in allwords())' % (_ACC_I, _NEW_W, _NEW_S)]}},
+         theories=['word', 'dfa'], props=['C02', 'C19'])
